@@ -8,9 +8,9 @@ def main():
     a = std_args().parse_args()
     c = Check("C01", a.tier, a.seed)
     ok_tr, errs = c.regenerate()
-    ok_mk, log = c.make(["Model/Prog.vo", "Props/C01.vo"])
-    thms = theorems_of("Props/C01.v")
-    assumptions = c.audit("Props.C01", thms) if ok_mk else {}
+    ok_mk, log = c.make(["Model/Prog.vo"] + props("C01")[2])
+    thms = theorems_of(*props("C01")[0])
+    assumptions = c.audit(props("C01")[1], thms) if ok_mk else {}
     binary = c.build_harness("release")
     casefile = os.path.join(c.work, "cases.txt")
     verdicts, fails, samples, dist = 0, [], [], {}
